@@ -13,8 +13,11 @@ For the raw-byte codecs, over lawful point/scalar codecs (the assumed facts abou
 * `X_reencode`    — re-encoding a successfully decoded byte string returns the same bytes;
 * `X_decode_encode` — decoding the encoding returns the same object.
 
-Text forms: `b64_roundtrip` (decode ∘ encode = id for every byte string) and the JSON writer/reader
-pair are checked here as far as stated; serde_json's full grammar is differential only (PARTIAL).
+Text forms (standard base64, as used by every `Display` / `FromStr`): `b64_roundtrip`
+(decode ∘ encode = id for every byte string), `b64_canonical` (a text the decoder accepts *is* the
+encoding of what it decodes to: padding, alphabet and trailing bits are canonical, so the text form is
+unique), `b64Encode_length`, `pod_text_roundtrip` (`FromStr ∘ Display = id` for every fixed-size type).
+The JSON reader/writer pair is differential only (serde_json's grammar; PARTIAL).
 -/
 set_option linter.unusedSectionVars false
 namespace Zk.Props.C12
@@ -158,5 +161,177 @@ theorem aect_ok_iff (b n c : Bytes) :
 theorem aect_reencode (b n c : Bytes) (h : decodeAeCiphertext b = .ok (n, c)) : n ++ c = b := by
   obtain ⟨_, rfl, rfl⟩ := (aect_ok_iff b n c).mp h
   exact List.take_append_drop 12 b
+
+end Zk.Props.C12
+
+/-! ## text form: standard base64 -/
+namespace Zk.Props.C12
+open Zk Zk.Text
+
+theorem b64Val_char : ∀ v : Fin 64, b64Val (b64Char v.1) = some v.1 := by decide +kernel
+theorem b64Char_ne_pad : ∀ v : Fin 64, b64Char v.1 ≠ 61 := by decide +kernel
+
+theorem b64Val_char' (v : Nat) (h : v < 64) : b64Val (b64Char v) = some v := b64Val_char ⟨v, h⟩
+theorem b64Char_ne_pad' (v : Nat) (h : v < 64) : b64Char v ≠ 61 := b64Char_ne_pad ⟨v, h⟩
+
+/-- `decode (encode b) = b` for every byte string -/
+theorem b64_roundtrip (b : Bytes) : b64Decode (b64Encode b) = some b := by
+  fun_induction b64Encode b with
+  | case1 => rfl
+  | case2 a n =>
+    have ha : a.toNat < 256 := a.toNat_lt
+    have h1 : n / 64 < 64 := by omega
+    have h2 : n % 64 < 64 := by omega
+    simp only [b64Decode, b64Val_char' _ h1, b64Val_char' _ h2, Option.bind_eq_bind, Option.bind_some]
+    have : n % 64 % 16 = 0 := by omega
+    simp only [this, ne_eq, not_true_eq_false, if_false]
+    have : n / 64 * 4 + n % 64 / 16 = a.toNat := by omega
+    rw [this]; simp
+  | case3 a b n =>
+    have ha : a.toNat < 256 := a.toNat_lt
+    have hb : b.toNat < 256 := b.toNat_lt
+    have h1 : n / 4096 < 64 := by omega
+    have h2 : n / 64 % 64 < 64 := by omega
+    have h3 : n % 64 < 64 := by omega
+    have hp := b64Char_ne_pad' _ h3
+    unfold b64Decode
+    split
+    · rename_i heq; simp at heq
+    · rename_i a' b' heq
+      simp only [List.cons.injEq, and_true] at heq
+      obtain ⟨_, _, h61⟩ := heq
+      exact absurd h61 hp
+    · rename_i a' b' c' heq
+      simp only [List.cons.injEq, and_true] at heq
+      obtain ⟨rfl, rfl, rfl⟩ := heq
+      simp only [b64Val_char' _ h1, b64Val_char' _ h2, b64Val_char' _ h3, Option.bind_eq_bind, Option.bind_some]
+      have : n % 64 % 4 = 0 := by omega
+      simp only [this, ne_eq, not_true_eq_false, if_false]
+      have e1 : (n / 4096 * 4096 + n / 64 % 64 * 64 + n % 64) / 1024 = a.toNat := by omega
+      have e2 : (n / 4096 * 4096 + n / 64 % 64 * 64 + n % 64) / 4 % 256 = b.toNat := by omega
+      rw [e1, e2]; simp
+    · rename_i a' b' c' d' rest' _ hx heq
+      simp only [List.cons.injEq] at heq
+      exact (hx heq.2.2.2.1.symm heq.2.2.2.2.symm).elim
+    · rename_i h1' h2' h3' h4'
+      exact absurd rfl (h3' _ _ _)
+  | case4 a b c rest n ih =>
+    have ha : a.toNat < 256 := a.toNat_lt
+    have hb : b.toNat < 256 := b.toNat_lt
+    have hc : c.toNat < 256 := c.toNat_lt
+    have h1 : n / 262144 < 64 := by omega
+    have h2 : n / 4096 % 64 < 64 := by omega
+    have h3 : n / 64 % 64 < 64 := by omega
+    have h4 : n % 64 < 64 := by omega
+    have hp3 := b64Char_ne_pad' _ h3
+    have hp4 := b64Char_ne_pad' _ h4
+    unfold b64Decode
+    split
+    · rename_i heq; simp at heq
+    · rename_i a' b' heq
+      simp only [List.cons.injEq] at heq
+      exact absurd heq.2.2.1 hp3
+    · rename_i a' b' c' heq
+      simp only [List.cons.injEq] at heq
+      exact absurd heq.2.2.2.1 hp4
+    · rename_i a' b' c' d' rest' _ _ heq
+      simp only [List.cons.injEq] at heq
+      obtain ⟨rfl, rfl, rfl, rfl, rfl⟩ := heq
+      simp only [b64Val_char' _ h1, b64Val_char' _ h2, b64Val_char' _ h3, b64Val_char' _ h4, ih,
+        Option.bind_eq_bind, Option.bind_some]
+      have e1 : (n / 262144 * 262144 + n / 4096 % 64 * 4096 + n / 64 % 64 * 64 + n % 64) / 65536 = a.toNat := by omega
+      have e2 : (n / 262144 * 262144 + n / 4096 % 64 * 4096 + n / 64 % 64 * 64 + n % 64) / 256 % 256 = b.toNat := by omega
+      have e3 : (n / 262144 * 262144 + n / 4096 % 64 * 4096 + n / 64 % 64 * 64 + n % 64) % 256 = c.toNat := by omega
+      rw [e1, e2, e3]; simp
+    · rename_i h1' h2' h3' h4'
+      exact absurd rfl (h4' _ _ _ _ _)
+
+theorem b64Encode_length (b : Bytes) : (b64Encode b).length = 4 * ((b.length + 2) / 3) := by
+  fun_induction b64Encode b with
+  | case1 => rfl
+  | case2 a n => simp
+  | case3 a b n => simp
+  | case4 a b c rest n ih => simp only [List.length_cons, ih]; omega
+
+/-- the text form of a fixed-size pod type parses back to the same bytes -/
+theorem pod_text_roundtrip (n mx : Nat) (b : Bytes) (hn : b.length = n) (hmx : 4 * ((n + 2) / 3) ≤ mx) :
+    podFromStr n mx (b64Encode b) = some b := by
+  unfold podFromStr
+  have : ¬ (b64Encode b).length > mx := by rw [b64Encode_length, hn]; omega
+  simp [this, b64_roundtrip, hn]
+
+def invOk (i : Nat) : Bool :=
+  match b64Val (UInt8.ofNat i) with
+  | some v => decide (v < 64) && b64Char v == UInt8.ofNat i
+  | none => true
+
+theorem b64Val_inv : ∀ i : Fin 256, invOk i.1 = true := by decide +kernel
+
+theorem b64Val_inv' (c : UInt8) (v : Nat) (h : b64Val c = some v) : v < 64 ∧ b64Char v = c := by
+  have := b64Val_inv ⟨c.toNat, c.toNat_lt⟩
+  simp only [invOk, UInt8.ofNat_toNat, h, Bool.and_eq_true, decide_eq_true_eq, beq_iff_eq] at this
+  exact this
+
+/-- canonical: a text accepted by the decoder is *the* encoding of what it decodes to -/
+theorem b64_canonical (s b : Bytes) (h : b64Decode s = some b) : b64Encode b = s := by
+  fun_induction b64Decode s generalizing b with
+  | case1 => simp at h; subst h; rfl
+  | case2 a b' =>
+    simp only [Option.bind_eq_bind, Option.bind_eq_some_iff] at h
+    obtain ⟨x, hx, y, hy, h⟩ := h
+    split at h
+    · cases h
+    · rename_i hy16
+      simp only [Option.some.injEq] at h
+      subst h
+      obtain ⟨hx64, hxc⟩ := b64Val_inv' _ _ hx
+      obtain ⟨hy64, hyc⟩ := b64Val_inv' _ _ hy
+      have hy16' : y % 16 = 0 := by omega
+      have hlt : x * 4 + y / 16 < 256 := by omega
+      simp only [b64Encode, UInt8.toNat_ofNat', Nat.mod_eq_of_lt hlt]
+      have e1 : (x * 4 + y / 16) * 16 / 64 = x := by omega
+      have e2 : (x * 4 + y / 16) * 16 % 64 = y := by omega
+      rw [e1, e2, hxc, hyc]
+  | case3 a b' c hc =>
+    simp only [Option.bind_eq_bind, Option.bind_eq_some_iff] at h
+    obtain ⟨x, hx, y, hy, z, hz, h⟩ := h
+    split at h
+    · cases h
+    · rename_i hz4
+      simp only [Option.some.injEq] at h
+      subst h
+      obtain ⟨hx64, hxc⟩ := b64Val_inv' _ _ hx
+      obtain ⟨hy64, hyc⟩ := b64Val_inv' _ _ hy
+      obtain ⟨hz64, hzc⟩ := b64Val_inv' _ _ hz
+      have hz4' : z % 4 = 0 := by omega
+      have l1 : (x * 4096 + y * 64 + z) / 1024 < 256 := by omega
+      have l2 : (x * 4096 + y * 64 + z) / 4 % 256 < 256 := by omega
+      simp only [b64Encode, UInt8.toNat_ofNat', Nat.mod_eq_of_lt l1, Nat.mod_eq_of_lt l2]
+      have e1 : ((x * 4096 + y * 64 + z) / 1024 * 256 + (x * 4096 + y * 64 + z) / 4 % 256) * 4 / 4096 = x := by omega
+      have e2 : ((x * 4096 + y * 64 + z) / 1024 * 256 + (x * 4096 + y * 64 + z) / 4 % 256) * 4 / 64 % 64 = y := by omega
+      have e3 : ((x * 4096 + y * 64 + z) / 1024 * 256 + (x * 4096 + y * 64 + z) / 4 % 256) * 4 % 64 = z := by omega
+      rw [e1, e2, e3, hxc, hyc, hzc]
+  | case4 a b' c d rest h1 h2 ih =>
+    simp only [Option.bind_eq_bind, Option.bind_eq_some_iff] at h
+    obtain ⟨x, hx, y, hy, z, hz, w, hw, r, hr, h⟩ := h
+    simp only [Option.some.injEq] at h
+    subst h
+    obtain ⟨hx64, hxc⟩ := b64Val_inv' _ _ hx
+    obtain ⟨hy64, hyc⟩ := b64Val_inv' _ _ hy
+    obtain ⟨hz64, hzc⟩ := b64Val_inv' _ _ hz
+    obtain ⟨hw64, hwc⟩ := b64Val_inv' _ _ hw
+    have l1 : (x * 262144 + y * 4096 + z * 64 + w) / 65536 < 256 := by omega
+    have l2 : (x * 262144 + y * 4096 + z * 64 + w) / 256 % 256 < 256 := by omega
+    have l3 : (x * 262144 + y * 4096 + z * 64 + w) % 256 < 256 := by omega
+    simp only [b64Encode, UInt8.toNat_ofNat', Nat.mod_eq_of_lt l1, Nat.mod_eq_of_lt l2, Nat.mod_eq_of_lt l3, ih r hr]
+    have e1 : ((x * 262144 + y * 4096 + z * 64 + w) / 65536 * 65536 + (x * 262144 + y * 4096 + z * 64 + w) / 256 % 256 * 256
+        + (x * 262144 + y * 4096 + z * 64 + w) % 256) = x * 262144 + y * 4096 + z * 64 + w := by omega
+    rw [e1]
+    have f1 : (x * 262144 + y * 4096 + z * 64 + w) / 262144 = x := by omega
+    have f2 : (x * 262144 + y * 4096 + z * 64 + w) / 4096 % 64 = y := by omega
+    have f3 : (x * 262144 + y * 4096 + z * 64 + w) / 64 % 64 = z := by omega
+    have f4 : (x * 262144 + y * 4096 + z * 64 + w) % 64 = w := by omega
+    rw [f1, f2, f3, f4, hxc, hyc, hzc, hwc]
+  | case5 s h1 h2 h3 h4 => simp at h
 
 end Zk.Props.C12
